@@ -149,7 +149,7 @@ def expected_emitters(docs):
     for d in docs:
         if "correlation" in d:
             for r in _refs(d):
-                t = by_key.get(_canon(r))
+                t = by_key.get(_canon(r)) or by_key.get(r)  # an id in any spelling, else a name (which may look like a UUID)
                 if t is None:
                     dangling = True
                     continue
@@ -256,6 +256,8 @@ def fixed_sets():
     yield [r[0], corr_rule(0, ["r0"]), corr_rule(1, ["r0"], generate=True)]
     yield [r[0], r[1], corr_rule(0, ["r0", "missing"], "temporal")]
     yield [r[0], r[1], r[2], r[3]]
+    hexname = dict(r[1], name="d41d8cd98f00b204e9800998ecf8427e")  # a name that parses as a UUID (but is no rule id)
+    yield [r[0], hexname, corr_rule(0, ["d41d8cd98f00b204e9800998ecf8427e", "r0"], "temporal")]
     yield [r[0], r[1], corr_rule(0, ["r0", "r1"], "temporal", ext="norules"), r[2]]
     yield [r[0], r[1], r[2], corr_rule(0, ["r1", "r0", "r2"], "temporal_ordered", ext="neg"), corr_rule(1, ["c0"])]
     yield [r[0], corr_rule(0, ["r0"], "value_count"), r[1], corr_rule(1, ["r1"], generate=True), r[2]]
